@@ -210,4 +210,12 @@ impl Builder {
         self.config.set_max_dirty_bytes_before_sync(bytes);
         self
     }
+
+    /// Verification hook (feature `verif`): minimal age of the active blob before it can be replaced
+    /// because of its size or record count (200 ms by default, no public setter)
+    #[cfg(feature = "verif")]
+    pub fn verif_debounce_interval_ms(mut self, ms: u64) -> Self {
+        self.config.set_debounce_interval_ms(ms);
+        self
+    }
 }
